@@ -347,10 +347,9 @@ Proof using.
     rewrite app_assoc, <- Ew. exact Ei.
 Qed.
 
-Theorem transaction_wf : forall fuel i t sps r, transaction fuel i = POk (t, sps) r ->
-  open_paren_payee t = false -> wf_txn t = true.
+Theorem transaction_wf : forall fuel i t sps r, transaction fuel i = POk (t, sps) r -> wf_txn t = true.
 Proof using value_expr_wf posting_amount_wf date_wf.
-  intros fuel i t sps r H Hop. unfold transaction in H.
+  intros fuel i t sps r H. unfold transaction in H.
   destruct (im_bind_inv _ _ _ _ _ _ _ H) as (d & m1 & D & K1). clear H.
   destruct (im_bind_inv _ _ _ _ _ _ _ K1) as (ed & m2 & Ed & K2). clear K1.
   destruct (im_bind_inv _ _ _ _ _ _ _ K2) as (sh & m3 & Sh & K3). clear K2.
@@ -376,12 +375,8 @@ Proof using value_expr_wf posting_amount_wf date_wf.
   assert (S6 : starts_not is_sp m6) by (destruct code; [exact (proj2 ICo) | subst m6; exact S5]).
   destruct (im_payee_inv _ _ _ Pa) as (P1 & P2 & P3). cbv zeta in P1, P2, P3.
   set (p := match payee with Some p => p | None => [] end) in *.
-  unfold open_paren_payee in Hop. cbn [st_code st_payee] in Hop. fold p in Hop.
   assert (Wp : wf_payee cs code p = true).
   { unfold wf_payee. rewrite P1, P2, (P3 is_sp S6). cbn [negb andb].
-    assert (Q1 : match code with None => negb (starts (N.eqb 40) p) | Some _ => true end = true).
-    { destruct code; [reflexivity |]. change (starts (N.eqb 40) p = false) in Hop. rewrite Hop. reflexivity. }
-    apply andb_true_iff. split; [exact Q1 |].
     destruct cs; try reflexivity. destruct code; [reflexivity |].
     destruct ICs as [-> Hm]. subst m6. rewrite (P3 is_clear_mark Hm). reflexivity. }
   (* the postings *)
